@@ -50,8 +50,8 @@ def build(cell):
     import pytorch_wavelets as pw
     with util.default_dtype(torch.float64):
         if cell['dim'] == 1:
-            return pw.DWT1DInverse(wave=cell['wave'], mode=cell['mode'])
-        return pw.DWTInverse(wave=cell['wave'], mode=cell['mode'])
+            return pw.DWT1DInverse(wave=cell['wave'], mode=c01.lib_mode(cell))
+        return pw.DWTInverse(wave=cell['wave'], mode=c01.lib_mode(cell))
 
 
 def make_pyramid(cell, kind, seed, batch=None, full=False):
